@@ -68,6 +68,36 @@ def random_affine(rng, np):
     return aff, kind
 
 
+def pair_describes(info, tr, affine, shape, rng):
+    """Oracle on a (info_fullres.json, transform.json) pair: does it describe
+    the volume with this affine (float64 array) and header shape?  Returns
+    None or a reason.  Exact rational arithmetic, tolerance 2^-40."""
+    Aq = [[Fraction(float(x)) for x in row] for row in affine.tolist()]
+    try:
+        sc = info["scales"][0]
+        res = sc["resolution"]
+        if sc["size"] != list(shape[:3]):
+            return f"size {sc['size']} is not the volume's {list(shape[:3])}"
+        for j in range(3):
+            norm2 = sum(Aq[a][j] ** 2 for a in range(3)) * 10 ** 12
+            if abs(Fraction(res[j]) ** 2 - norm2) > norm2 * TOL * 4:
+                return f"resolution[{j}] = {res[j]} is not the voxel size in nm"
+        M = [[Fraction(x) for x in row] for row in tr]
+        if M[3] != [0, 0, 0, 1]:
+            return "last row of the transform"
+        for idx in [(0, 0, 0), tuple(d - 1 for d in shape[:3]), tuple(rng.randrange(0, 500) for _ in range(3))]:
+            ng = [(Fraction(idx[j]) + Fraction(1, 2)) * Fraction(res[j]) for j in range(3)]
+            for a in range(3):
+                got = sum(M[a][j] * ng[j] for j in range(3)) + M[a][3]
+                want = (sum(Aq[a][j] * idx[j] for j in range(3)) + Aq[a][3]) * 10 ** 6
+                mag = (sum(abs(Aq[a][j]) * (idx[j] + 1) for j in range(3)) + abs(Aq[a][3])) * 10 ** 6
+                if abs(got - want) > mag * TOL * 8:
+                    return f"transform row {a} at voxel {idx}: {float(got)} instead of {float(want)}"
+    except (KeyError, IndexError, TypeError, ValueError) as exc:
+        return f"malformed: {exc!r}"
+    return None
+
+
 def run(R):
     import numpy as np
     import nibabel as nib
@@ -294,6 +324,125 @@ def run(R):
             else:
                 continue
             break
+
+    # ------------------------------------------------------------ sequences
+    def make_volume(tag):
+        aff, _k = random_affine(rng, np)
+        while abs(np.linalg.det(aff[:3, :3])) < 1e-9:
+            aff, _k = random_affine(rng, np)
+        shape = [rng.choice([1, 2, 3, 5, 8]) for _ in range(3)]
+        dt = rng.choice(["uint8", "uint16", "float32", "int16"])
+        cls = nib.Nifti2Image if rng.random() < 0.5 else nib.Nifti1Image
+        path = os.path.join(R.tmp, f"seq_{tag}.nii")
+        nib.save(cls(np.zeros(shape, dtype=dt), aff, dtype=np.dtype(dt)), path)
+        loaded = nib.load(path)
+        return path, np.array(loaded.affine, dtype=float), list(loaded.header.get_data_shape())
+
+    def read_pair(dest):
+        out = {}
+        for fn in ("info_fullres.json", "transform.json"):
+            fp = os.path.join(dest, fn)
+            out[fn] = open(fp, "rb").read() if os.path.exists(fp) else None
+        return out
+
+    # (a) --generate-info twice into the same destination, for two different volumes
+    n_seq = 40 if quick else 300
+    for k in range(n_seq):
+        pa, affa, sha = make_volume(f"a{k}")
+        pb, affb, shb = make_volume(f"b{k}")
+        dest = os.path.join(R.tmp, f"seqd{k}")
+        os.makedirs(dest)
+        opts = [] if rng.random() < 0.6 else ["--no-gzip"]
+        as_sub = k < (3 if quick else 10)
+
+        def gen(path):
+            argv = ["volume-to-precomputed", "--generate-info", path, dest] + opts
+            if as_sub:
+                r = subprocess.run([PY, "-m", "neuroglancer_scripts.scripts.volume_to_precomputed"] + argv[1:],
+                                   stdout=subprocess.PIPE, stderr=subprocess.PIPE, timeout=120)
+                return ["ok", r.returncode] if r.returncode in (0, 1, 4) else ["Crash", r.stderr.decode()[-200:]]
+            return outcome_of(lambda: volume_to_precomputed.main(list(argv)))
+        first = gen(pa)
+        pair1 = read_pair(dest)
+        same_volume = rng.random() < 0.15
+        second = gen(pa if same_volume else pb)
+        pair2 = read_pair(dest)
+        case = {"sequence": "generate-info twice, same destination", "first_affine": affa.tolist(),
+                "second_affine": (affa if same_volume else affb).tolist(), "first_shape": sha,
+                "second_shape": sha if same_volume else shb, "same_volume": same_volume, "subprocess": as_sub}
+        R.case(case, nontrivial=True)
+        R.count(f"seq:generate-twice:{'same' if same_volume else 'other'}-volume:second-rc="
+                f"{second[1] if second[0] == 'ok' else second[0]}")
+        if first[0] != "ok" or first[1] not in (0, 4) or None in pair1.values():
+            R.violation("first --generate-info into an empty directory failed", case, {"impl": first})
+            continue
+        # correspondence with the code as it is: the second run is refused (exclusive create), nothing changes
+        if second != ["ok", 1] or pair2 != pair1:
+            R.disagree("second --generate-info into the same destination: expected return code 1 and "
+                       "unchanged files", case, [second, {k2: (v == pair1[k2]) for k2, v in pair2.items()}],
+                       [["ok", 1], "files unchanged"])
+        # oracle: whatever the run reports, the pair left behind describes ONE volume, and a success
+        # status means it is the volume just given
+        try:
+            info2, tr2 = json.loads(pair2["info_fullres.json"]), json.loads(pair2["transform.json"])
+        except Exception as exc:  # noqa: BLE001
+            R.violation("info_fullres.json / transform.json unreadable after the second run", case,
+                        {"error": repr(exc)})
+            continue
+        why_a = pair_describes(info2, tr2, affa, sha, rng)
+        why_b = why_a if same_volume else pair_describes(info2, tr2, affb, shb, rng)
+        if second[0] == "ok" and second[1] in (0, 4):
+            if why_b is not None:
+                R.violation("--generate-info reported success but info and transform do not both describe "
+                            "the volume given", case, {"reason": why_b, "rc": second[1]})
+        elif why_a is not None and why_b is not None:
+            R.violation("after a refused --generate-info the destination holds a mixed info/transform pair",
+                        case, {"vs_first": why_a, "vs_second": why_b, "impl": second})
+
+    # (b) the same loaded image object used twice
+    n_obj = 60 if quick else 400
+    for k in range(n_obj):
+        path, aff, shape = make_volume(f"o{k}")
+        img = nib.load(path)
+        before = np.array(img.affine, dtype=float)
+        opts = {"sharding": rng.choice([None, None, "1,1,0"]), "gzip": True}
+        how = rng.choice(["info-info", "store-info", "store-store"])
+        case = {"sequence": "same image object twice: " + how, "affine": aff.tolist(), "shape": shape,
+                "sharding": opts["sharding"]}
+        R.case(case, nontrivial=True)
+        R.count("seq:same-object:" + how)
+
+        def call(i):
+            if how == "info-info" or (how == "store-info" and i == 1):
+                fi, jt, dt_, imp = volume_reader.nibabel_image_to_info(img, options=opts)
+                return [json.loads(fi), [[float(x) for x in row] for row in jt], dt_.name, bool(imp)]
+            dest = os.path.join(R.tmp, f"obj{k}_{i}")
+            os.makedirs(dest)
+            from neuroglancer_scripts import accessor as ngacc
+            acc = ngacc.get_accessor_for_url(dest, {"gzip": True})
+            rc = volume_reader.store_nibabel_image_to_fullres_info(img, acc, options=opts)
+            pr = read_pair(dest)
+            return [json.loads(pr["info_fullres.json"]), json.loads(pr["transform.json"]), None, rc in (4,)]
+        r1 = outcome_of(lambda: call(0))
+        mid = np.array(img.affine, dtype=float)
+        r2 = outcome_of(lambda: call(1))
+        after = np.array(img.affine, dtype=float)
+        if r1[0] != "ok" or r2[0] != "ok":
+            R.violation("info generation failed on a valid image", case, {"first": r1[0], "second": r2[0]})
+            continue
+        if not (np.array_equal(before, mid) and np.array_equal(before, after)):
+            R.violation("generating the info modified the affine of the caller's image object", case,
+                        {"before": before.tolist(), "after": after.tolist()})
+        for which, r in (("first", r1[1]), ("second", r2[1])):
+            why = pair_describes(r[0], r[1], aff, shape, rng)
+            if why is not None:
+                R.violation(f"{which} result obtained from the same image object does not describe the volume",
+                            case, {"reason": why})
+                break
+        if r1[1][0] != r2[1][0] or r1[1][1] != r2[1][1] or r1[1][3] != r2[1][3]:
+            R.disagree("two generations from the same image object differ", case,
+                       {"res": r1[1][0]["scales"][0]["resolution"], "t": [row[3] for row in r1[1][1]]},
+                       {"res": r2[1][0]["scales"][0]["resolution"], "t": [row[3] for row in r2[1][1]]})
 
     # ------------------------------------------------------------ nifti_to_neuroglancer_transform alone
     tcases = []
